@@ -364,10 +364,14 @@ def c09(tier, seed):
     tp['starts'] = (0,)
     tp['cfgs'] = ['tc-unsafe'] if tier == 'quick' else ['tc-unsafe', 'sm-safe']
     ev2 = {}
-    rc2 = lex_family('C09', tier, seed, relevant={'C01'}, select=lambda ds: accepted, name='lex', evidence_hook=ev2, **tp)
-    rc = max(rc, rc2)
     lits = literal_vs_regex(tier, seed)
     rc = max(rc, lits['rc'])
+    # the accepted literal-vs-regex definitions go through the lexing obligations too: the literal must win its own text
+    # in the generated code, not only in the priority numbers
+    accepted = accepted + lits['defs']
+    corpus_defs._extra_defs = accepted
+    rc2 = lex_family('C09', tier, seed, relevant={'C01'}, select=lambda ds: accepted, name='lex', evidence_hook=ev2, **tp)
+    rc = max(rc, rc2)
     # merge evidence (lex_family wrote the file; extend it)
     cov = ev2.get('coverage', {})
     cov['verdict_cases'] = cases
@@ -393,7 +397,10 @@ def literal_vs_regex(tier, seed):
     """a literal token is never beaten on its own text by a default-priority regex"""
     from .props import known_or_violation
     pairs = [('fast', '[a-z]+'), ('if', '[a-z][a-z0-9]*'), ('==', '=+'), ('a.b', 'a.b'), ('é', '\\p{L}'), ('ab', 'a[b-c]'),
-             ('abc', '(abc)+'), ('x', 'x|y'), ('10', '[0-9]{2}'), ('ab', '(?i)ab'), ('aa', 'a{2}'), ('a', '[a]')]
+             ('abc', '(abc)+'), ('x', 'x|y'), ('10', '[0-9]{2}'), ('ab', '(?i)ab'), ('aa', 'a{2}'), ('a', '[a]'),
+             # classes rendered as compare chains with holes next to the literal's bytes
+             ('function', '[\\x00-\\x7F]+'), ('#include', '#[^\\n]*'), ('if', '[^ ]+'), ('a.b', '[^.]+\\.[^.]+'),
+             ('fn', '[\\x00-\\x7F]+'), ('#if', '#[\\x00-\\x09\\x0B-\\x7F]*'), ('let', '[\\x21-\\x7F]+')]
     defs = [Def(f'lvr{i}', variants=[Var('Lit', [T(l)]), Var('Re', [R(r)])]) for i, (l, r) in enumerate(pairs)]
     verdicts = pipeline.derive_verdicts(defs)
     cases = []
